@@ -43,6 +43,7 @@ pub struct Metadata { _p: () }
 pub struct SystemTime { _p: () }
 #[verifier::external_body]
 pub struct IoError { _p: () }
+impl Cause for IoError { open spec fn cause_chain(&self) -> Seq<ErrNode> { seq![ErrNode::Foreign] } }
 #[derive(PartialEq, Eq, Structural)]
 pub enum IoErrorKind { NotFound, Other }
 pub mod io { pub type Result<T> = core::result::Result<T, super::IoError>; pub use super::IoErrorKind as ErrorKind; }
